@@ -100,3 +100,108 @@ Proof.
       subst x'. apply IH; auto.
     + exfalso. apply (AB Hout H4 n Hn). exact Hkey.
 Qed.
+
+(* ------------------------------------------------------------------ one notification per triggered round *)
+Lemma NoDup_app_intro : forall {A} (l1 l2 : list A),
+  NoDup l1 -> NoDup l2 -> (forall a, In a l1 -> ~ In a l2) -> NoDup (l1 ++ l2).
+Proof.
+  intros A l1 l2. induction l1 as [|x r IH]; cbn; intros H1 H2 Hd; [exact H2|].
+  inversion H1; subst. constructor.
+  - rewrite in_app_iff. intros [H|H]; [contradiction|]. apply (Hd x); auto.
+  - apply IH; auto.
+Qed.
+
+Lemma exec_all_nodup : forall nw sb os, NoDup (keys sb) -> NoDup (oids os) ->
+  NoDup (map nkey (snd (exec_all nw sb os))).
+Proof.
+  intros nw sb. induction os as [|o r IH]; intros Hk Ho; [constructor|].
+  pose proof (exec_all_ntfs nw sb r) as Hr. cbn in *.
+  destruct (exec_obj nw sb o) as [o' n1] eqn:E1. destruct (exec_all nw sb r) as [r' n2] eqn:E2. cbn in *.
+  inversion Ho as [|? ? Hnotin Ho']; subst. rewrite map_app. apply NoDup_app_intro; [| apply IH; auto |].
+  - unfold exec_obj in E1. destruct (trig o); inversion E1; subst; [|constructor].
+    rewrite map_map. unfold subs_of. cbn. apply (NoDup_map_filter key). exact Hk.
+  - intros a Ha Hb. unfold exec_obj in E1. destruct (trig o); inversion E1; subst; [|destruct Ha].
+    apply in_map_iff in Ha as [n [<- Hn]]. apply in_map_iff in Hn as [x [<- Hx]].
+    unfold subs_of in Hx. apply filter_In in Hx as [_ Hox]. apply Z.eqb_eq in Hox.
+    apply in_map_iff in Hb as [n2' [Hk2 Hn2]]. apply Hr in Hn2 as [o2 [x2 [Ho2 [_ [_ [Hox2 ->]]]]]].
+    cbn in Hk2. inversion Hk2 as [[H1 H2 H3]]. apply Hnotin. rewrite <- Hox, <- H3, Hox2. apply in_map. exact Ho2.
+Qed.
+
+Theorem drain_round : forall s s' out, inv s -> step s Drain = (s', out) ->
+  (forall x o, In x (subs s) -> find_obj (s_oid x) (objs s) = Some o ->
+     (trig o = true -> In (mk_ntf (now s) o x) (o_ntfs out)) /\
+     (trig o = false -> forall n, In n (o_ntfs out) -> nkey n <> key x)) /\
+  NoDup (map nkey (o_ntfs out)) /\
+  (forall o, In o (objs s') -> trig o = false) /\ subs s' = subs s.
+Proof.
+  intros s s' out [Hnd [Hod Hlive]] S. cbn [step] in S. rewrite drain_spec in S. inversion S; subst s' out; clear S.
+  cbn [o_ntfs objs subs]. split; [|split; [apply exec_all_nodup; auto|split; [apply exec_all_clears|reflexivity]]].
+  intros x o Hx Fo. pose proof (find_obj_some _ _ _ Fo) as [Hin Hoid]. split.
+  - intro Ht. apply exec_all_ntfs. exists o, x. auto 6.
+  - intros Ht n Hn. apply exec_all_ntfs in Hn as [o2 [x2 [Ho2 [Ht2 [Hx2 [Hox2 ->]]]]]]. cbn. intro E.
+    inversion E as [[E1 E2 E3]]. assert (o2 = o); [|congruence].
+    pose proof (find_obj_in _ _ Hod Ho2) as F2. rewrite <- Hox2, E3 in F2. congruence.
+Qed.
+
+(* ------------------------------------------------------------------ subscribe: ack + initial notification *)
+Lemma exec_all_find : forall nw sb os i ob, find_obj i os = Some ob ->
+  exists ob', find_obj i (fst (exec_all nw sb os)) = Some ob' /\
+    pv ob' = pv ob /\ fl ob' = fl ob /\ okind ob' = okind ob.
+Proof.
+  intros nw sb. induction os as [|o r IH]; intros i ob F; [discriminate|]. unfold find_obj in *. cbn in *.
+  destruct (exec_obj nw sb o) as [o' n1] eqn:E1. destruct (exec_all nw sb r) as [r' n2] eqn:E2. cbn in *.
+  assert (Ho' : oid o' = oid o /\ pv o' = pv o /\ fl o' = fl o /\ okind o' = okind o).
+  { unfold exec_obj in E1. destruct (trig o); inversion E1; subst; auto. unfold report.
+    destruct (reports_prev (okind o)); cbn; auto. }
+  destruct Ho' as [A [B [C D]]]. rewrite A. destruct (oid o =? i).
+  - inversion F; subst. exists o'. auto.
+  - apply IH. exact F.
+Qed.
+
+Theorem subscribe_initial : forall s c p o cf life s' out ob,
+  inv s -> wf_ev (Subscribe c p o cf life) -> step s (Subscribe c p o cf life) = (s', out) ->
+  find_obj o (objs s) = Some ob -> okind ob <> KNoCov ->
+  o_ack out = 1 /\
+  In (mkNtf c p o cf (life_of life) (pv ob) (fl ob) (now s)) (o_ntfs out) /\
+  exists x, find_sub c p o (subs s') = Some x /\ s_conf x = cf /\ s_life x = life_of life /\
+    (life_of life = 0 -> s_task x = None) /\
+    (0 < life_of life -> exists k, s_task x = Some (now s + life_of life * TICKS, k)).
+Proof.
+  intros s c p o cf life s' out ob Hi Hwf S F HK. cbn [step] in S.
+  assert (Hlf : 0 <= life_of life) by (destruct life; cbn in *; lia).
+  destruct (drain s) as [s1 ns] eqn:D. pose proof (drain_facts _ _ _ Hi D) as [A [B [C _]]].
+  rewrite drain_spec in D. inversion D as [[D1 D2]].
+  destruct (exec_all_find (now s) (subs s) (objs s) o ob F) as [ob1 [F1 [Hpv [Hfl Hk]]]].
+  assert (Fs1 : find_obj o (objs s1) = Some ob1) by (rewrite <- D1; exact F1).
+  pose proof (do_subscribe_facts _ _ _ _ _ _ _ _ _ A Hlf S) as [[Hnd' _] _].
+  unfold do_subscribe in S. rewrite Fs1 in S. fold (life_of life) in S. set (lf := life_of life) in *.
+  assert (Htrem : forall k, trem (now s1) (mkSub c p o cf lf (if lf =? 0 then None else Some (now s1 + lf * TICKS, k))) = lf).
+  { intro k. unfold trem, TICKS. cbn. destruct (lf =? 0) eqn:E; [lia|]. cbn.
+    replace (now s1 + lf * 8 - now s1) with (lf * 8) by lia. rewrite Z.quot_mul by lia. destruct (lf =? 0); [discriminate|reflexivity]. }
+  assert (Htrem2 : forall k, trem (now s1) (mkSub c p o cf lf (if 0 <? lf then Some (now s1 + lf * TICKS, k) else None)) = lf).
+  { intro k. unfold trem, TICKS. cbn. destruct (lf =? 0) eqn:E; [lia|]. destruct (0 <? lf) eqn:E2; [|lia]. cbn.
+    replace (now s1 + lf * 8 - now s1) with (lf * 8) by lia. rewrite Z.quot_mul by lia. rewrite E. reflexivity. }
+  assert (Hb : forall g : obj -> obj, True) by auto.
+  rewrite <- Hk in HK.
+  destruct (okind ob1) eqn:K; try contradiction.
+  all: destruct (find_sub c p o (subs s1)) as [y|] eqn:FS; inversion S; subst s' out; clear S; cbn [o_ack o_ntfs ack_out subs].
+  all: split; [reflexivity|]; split;
+       [apply in_or_app; right; left; unfold mk_ntf; cbn [s_cli s_proc s_oid s_conf];
+        rewrite ?Htrem, ?Htrem2; unfold bind_obj; destruct (bound ob1); cbn; rewrite Hpv, Hfl, B; reflexivity|].
+  (* renewals *)
+  1,3,5: apply find_sub_some in FS as [Hy Hky];
+         eexists; split;
+         [ match goal with |- find_sub _ _ _ ?l = _ =>
+             assert (Hin : In (mkSub c p o cf lf (if lf =? 0 then None else Some (now s1 + lf * TICKS, ctr s1))) l)
+               by (apply in_map_iff; exists y; split; [apply key_eqb_iff in Hky; rewrite Hky; reflexivity|exact Hy]) end;
+           exact (find_sub_in _ _ Hnd' Hin)
+         | cbn; split; [reflexivity|split; [reflexivity|split;
+             [intro E; rewrite E; reflexivity|intro E; destruct (lf =? 0) eqn:E0; [lia|rewrite <- B; eauto]]]]].
+  (* new subscriptions *)
+  all: eexists; split;
+       [ match goal with |- find_sub _ _ _ (?l ++ [?x]) = _ =>
+           assert (Hin : In x (l ++ [x])) by (apply in_or_app; right; left; reflexivity) end;
+         exact (find_sub_in _ _ Hnd' Hin)
+       | cbn; split; [reflexivity|split; [reflexivity|split;
+           [intro E; rewrite E; reflexivity|intro E; destruct (0 <? lf) eqn:E0; [rewrite <- B; eauto|lia]]]]].
+Qed.
